@@ -376,7 +376,7 @@ impl Engine for C04 {
             }
             c != init
         };
-        CaseResult { transitions: tr, nontrivial, outcome, failures }
+        CaseResult { transitions: tr, nontrivial, outcome, failures, ..Default::default() }
     }
 }
 
@@ -561,6 +561,6 @@ impl Engine for C20 {
             Ok(Ok(n)) => live = n,
         }
         let _ = json!(null);
-        CaseResult { transitions: tr, nontrivial: live > 0 && !ops.is_empty(), outcome: format!("{}:{}", outcome, live.min(40)), failures }
+        CaseResult { transitions: tr, nontrivial: live > 0 && !ops.is_empty(), outcome: format!("{}:{}", outcome, live.min(40)), failures, ..Default::default() }
     }
 }
